@@ -11,7 +11,7 @@ SHARD = 125
 MAXTS = 2 ** 63 - 1
 AUTHS = [0, 1, 127, 254, 255]
 STARTS = [0, 10, 20, 30, 40, 50]
-ST = {"ok": 0, "unauth": 1, "valid": 2, "other": 3, "resfail": 4, "skip": 5}
+ST = {"ok": 0, "unauth": 1, "valid": 2, "multi": 3, "resfail": 4, "skip": 5, "config": 7, "other": 8}
 
 RULE = ("scripts of 4-16 ops over open/set-authority/release on one Controller (35% shared mode), 4 subjects, authorities "
         "mostly from {0,1,127,254,255}, ranges 55% [s,MAX) as cesium writers use, else bounded/touching/zero-length/"
@@ -153,7 +153,7 @@ def features(case, r):
                 f.add("tie")
         if len(x["regions"]) >= 2:
             f.add("multi_region")
-        if x["st"] == "other":
+        if x["st"] == "multi":
             f.add("multi_region_span")
     return f
 
